@@ -140,6 +140,25 @@ def scenarios(ctx):
             for mode in ("whole", "rand"):
                 out.append({"kind": "bomb", "name": "bomb/%d/%d/%s" % (bomb, pl_len, mode), "cfg": "respdecomp=1,ztime=1000000,bomb=%d" % bomb, "req": REQ,
                             "pieces": cuts(r, res, mode), "payload": pl, "valid": True, "compressed": body, "framing": "cl", "close": False, "bomb": bomb})
+    # a body larger than the bomb limit but with an ordinary ratio is NOT a bomb: it must arrive in full
+    for bomb in (1000, 5000):
+        pl = bytes(r.randrange(256) for _ in range(20000))
+        res = frame(r, b"HTTP/1.1 200 OK\r\nContent-Encoding: gzip\r\n", gz(pl), "cl")
+        for mode in ("whole", "rand"):
+            out.append({"kind": "faithful", "name": "over-limit-ordinary-ratio/%d/%s" % (bomb, mode), "cfg": "respdecomp=1,ztime=1000000,bomb=%d" % bomb,
+                        "req": REQ, "pieces": cuts(r, res, mode), "payload": pl, "valid": True, "compressed": gz(pl), "framing": "cl", "close": False})
+    # a real bomb (ratio far above 2048: zeros compressed twice), after a GET and after a POST that itself carried a body: the bound is
+    # about the RESPONSE's compressed bytes whatever the request looked like
+    pl = b"\x00" * (3000000 if quick else 8000000)
+    inner = gz(pl, 9)
+    outer = gz(inner, 9)
+    POST = b"POST /p HTTP/1.1\r\nHost: h\r\nContent-Length: 6000\r\n\r\n" + b"x" * 6000
+    for reqb, tag in ((REQ, "get"), (POST, "post")):
+        for bomb in (1000, 100000):
+            res = frame(r, b"HTTP/1.1 200 OK\r\nContent-Encoding: gzip, gzip\r\n", outer, "cl")
+            for mode in ("whole", "rand"):
+                out.append({"kind": "bomb", "name": "bomb2/%s/%d/%s" % (tag, bomb, mode), "cfg": "respdecomp=1,ztime=1000000,bomb=%d" % bomb, "req": reqb,
+                            "pieces": cuts(r, res, mode), "payload": pl, "valid": True, "compressed": outer, "framing": "cl", "close": False, "bomb": bomb})
     return out
 
 
@@ -226,7 +245,10 @@ def run(ctx, model_ok=True, proofs_broken=False):
             comp_len = len(sc["compressed"])
             bound = max(sc["bomb"], RATIO * comp_len) + BUF
             if len(delivered) > bound:
-                note("bomb-over-bound", {"script": lines, "what": "%s: %d bytes delivered; bound max(%d, 2048 x %d) + %d = %d" % (
+                # known finding: with two layers, the buffer of the OUTER layer that was ended by the bomb is still flushed to the callback at the
+                # end of the stream (raw, less than one buffer): attributed only when the excess is below one buffer in a layered chain
+                stale = sc["name"].startswith("bomb2/") and len(delivered) - bound < BUF
+                note("bomb-stale-flush" if stale else "bomb-over-bound", {"script": lines, "what": "%s: %d bytes delivered; bound max(%d, 2048 x %d) + %d = %d" % (
                     sc["name"], len(delivered), sc["bomb"], comp_len, BUF, bound)})
         if t and int(t.get("sel", 0)) != len(delivered):
             note("entity-len", {"script": lines, "what": "%s: entity_len=%s but %d bytes were delivered" % (sc["name"], t.get("sel"), len(delivered))})
